@@ -179,4 +179,28 @@ theorem step_refines_all (s : Sys) (sp : Spec.SSys) (k : Nat) (op : Op)
     · exact step_refines_swap s sp k _ hinv hrel hv
     · exact step_refines_cmp s sp k _ hinv hrel hv
 
+/-- the outputs of the model agree with those of the spec wherever the spec gives one -/
+def OutsAgree : List Out → List (Option Out) → Prop
+  | [], [] => True
+  | o :: os, so :: sos => (∀ o', so = some o' → o = o') ∧ OutsAgree os sos
+  | _, _ => False
+
+theorem outsAgree_cons (o : Out) (os : List Out) (so : Option Out) (sos : List (Option Out)) :
+    OutsAgree (o :: os) (so :: sos) = ((∀ o', so = some o' → o = o') ∧ OutsAgree os sos) := rfl
+
+theorem validRun_cons (s : Sys) (k : Nat) (op : Op) (rest : List (Nat × Op)) :
+    validRun s ((k, op) :: rest) = (valid s k op && match step s k op with
+      | .ok r => validRun r.1 rest
+      | .error _ => false) := rfl
+
+theorem run_cons (s : Sys) (k : Nat) (op : Op) (rest : List (Nat × Op)) :
+    run s ((k, op) :: rest) = (do
+      let r ← step s k op
+      let r2 ← run r.1 rest
+      .ok (r2.1, r.2 :: r2.2)) := rfl
+
+theorem specRun_cons (sp : Spec.SSys) (k : Nat) (op : Op) (rest : List (Nat × Op)) :
+    Spec.run sp ((k, op) :: rest) =
+      ((Spec.run (Spec.step sp k op).1 rest).1, (Spec.step sp k op).2 :: (Spec.run (Spec.step sp k op).1 rest).2) := rfl
+
 end Tetl.C01
